@@ -36,10 +36,15 @@ PROP = {
                   "(diamonds) with emit/test conditions using before and result at every level, default and "
                   "overriding implementations, nested calls, run on interpreter, VM and VM+peephole: outcome, log and "
                   "the ordered EmitEvent payloads vs the wrapper model (interpreter) and the desugared model (VM); "
-                  "direct oracle: a run that completes although a constant-false condition was in scope. "
+                  "a third of the programs (random ones, and a directed family in which the inherited and the own "
+                  "post-conditions of the same function capture different before-values, fields starting different) are also "
+                  "rendered as two deployed contracts plus a script (`mprog`: interfaces in contract CA, remaining interfaces and "
+                  "the composite in contract CB at the same address or, as control, at another address) and judged by the same "
+                  "models; direct oracle: a run that completes although a condition that is false in every state (`false`, "
+                  "`e < e` such as `before(e) < before(e)`, a conjunction containing one) was in scope. "
                   "The calculus leaves out: value types other than Int, resources (result as a reference), void "
-                  "functions, initializer / global-function / transaction conditions, interfaces from other "
-                  "contracts, condition messages.",
+                  "functions, initializer / global-function / transaction conditions, condition messages "
+                  "(interfaces declared in another contract are run as a rendering of the same calculus program).",
     "level_note": "proof (core calculus) + CC. Trusted: Lean kernel; the hand-written calculus (validated by the stream); "
                   "the generator's two renderers (Cadence source / S-expression) in harness/internal/l3sx; the driver.",
     "assumptions": ["programs of the condition calculus (functions (Int, Int) -> Int on one struct with two Int fields)",
